@@ -69,7 +69,7 @@ let opt_str = function None -> "-" | Some s -> S.concat "" (S.split_on_char ' ' 
 
 (* ---- server schedules *)
 let srv_case ts : str =
-  let _cache = ti ts in
+  let cache_mb = ti ts in
   let nv = ti ts in
   let vers = L.init nv (fun _ ->
     let _id = ti ts in let name = tn ts in let tag = tn ts in let minz = tn ts in let maxz = tn ts in let req = tn ts in
@@ -82,7 +82,7 @@ let srv_case ts : str =
   let _e = tok ts in let _n = ti ts in
   let name_str n = "a" ^ string_of_n n in
   let tag_str t = (match t with N0 -> "" | _ -> "v" ^ string_of_n t) in
-  let st = ref (init cVersion) in
+  let st = ref (xinit (z_of_string (string_of_int (cache_mb * 1000000)))) in
   let printed = ref 0 in
   let out = ref [] in
   let dead = ref false in
@@ -116,13 +116,13 @@ let srv_case ts : str =
             | None -> dead := true));
       if !dead then out := "REJECT" :: !out
       else begin
-        let calls = L.sort compare (L.map (fun (((n, e), o), l) -> S.concat "/" [name_str n; tag_str e; string_of_n o; string_of_n l]) (pending_calls !st)) in
-        let dones = L.rev (!st).dones in
+        let calls = L.sort compare (L.map (fun (((n, e), o), l) -> S.concat "/" [name_str n; tag_str e; string_of_n o; string_of_n l]) (pending_calls (!st).x_sys)) in
+        let dones = L.rev (!st).x_sys.dones in
         let fresh = L.filteri (fun i _ -> i >= !printed) dones in
         printed := L.length dones;
         let dn = L.sort compare (L.map (fun ((rid, _q), r) -> let (stt, body) = status_body r in
                     ignore rid; S.concat ":" [string_of_n stt; (if int_of_n stt = 200 then hex_of_bytes body else "-")]) fresh) in
-        out := ("calls=[" ^ S.concat "," calls ^ "] done=[" ^ S.concat "," dn ^ "]") :: !out
+        out := ("calls=[" ^ S.concat "," calls ^ "] done=[" ^ S.concat "," dn ^ "] size=" ^ string_of_z (!st).x_total) :: !out
       end;
       steps () in
   steps ();
@@ -266,6 +266,7 @@ let run_case (line:str) : str =
     else if st = 304 then "304 - - " ^ (if r.rs_etag then "1" else "0") ^ " -"
     else Printf.sprintf "%d - - 0 -" st
   | "srv" -> srv_case ts
+  | "srvsize" -> "ok"
   | op -> "unknown-op " ^ op
 
 let () =
